@@ -25,12 +25,13 @@
            Release r t        refnode.Rmdir(t)         = release
          Sub-steps of getLayer (for interleavings: racing lookups are arbitrary merges of these):
            LoadRef r mf       refPool.loadRef
-           Resolve r l f      one resolveLayer goroutine (atomic: resolveLock(key) + memo check ... memo set);
+           Resolve r l f      one resolveLayer goroutine: memo check, Resolver.Resolve, then ONE locked section that caches
+                              the layer and records the success (C16-fix-4), or records the error;
                               getLayer starts one per layer of the manifest only, so it is a no-op for other l
            Probe r t          getCachedLayer
            Expire r l         TTL timer of the resolver's layer cache
    [variant] selects the release code: [Orig] = the code at the pinned commit (defects F15/F22),
-   [Fixed] = with patches/C16-fix-1.diff and C16-fix-2.diff applied (what /repo's working tree contains). *)
+   [Fixed] = with patches/C16-fix-1.diff and C16-fix-2.diff applied (what /repo contains). *)
 From Coq Require Import List Arith ZArith Bool.
 Import ListNotations.
 
@@ -171,6 +172,25 @@ Definition resolve1 (w : world) (s : st) (r l : nat) (f : bool) : st :=
       | None => set_memo s ((r, l, false) :: memo s)
       end
   end.
+
+(* resolveLayer as it was before C16-fix-4: two separately locked sections - Resolve + cacheLayer, and (deferred, later)
+   the memo write. Only used to state what was wrong (Properties/C16.v, C16_late_memo_refuted); with the fix the success
+   path records the memo inside cacheLayer's section, which is what [resolve1] describes, and the deferred section only
+   records errors (an error recorded late = [Expire] of the resolver entry followed by a failing [Resolve], an op list). *)
+Definition cache_only (w : world) (s : st) (r l : nat) (f : bool) : st :=
+  match memo_find (memo s) r l with
+  | Some _ => s
+  | None =>
+      match toc_of w l with
+      | Some t =>
+          if in_rcache s r l || negb f then
+            let s1 := if in_rcache s r l then s else set_rcache s ((r, l) :: rcache s) in
+            if cached s1 r t then s1 else set_layers s1 ((r, t, l) :: layers s1)
+          else s
+      | None => s
+      end
+  end.
+Definition memo_late (s : st) (r l : nat) (ok : bool) : st := set_memo s ((r, l, ok) :: memo s).
 
 Definition resolve_all (w : world) (s : st) (r : nat) (fl : list nat) : st :=
   fold_left (fun s l => resolve1 w s r l (mem l fl)) (image w r) s.
